@@ -60,6 +60,14 @@ pub fn c10_load_le136() {
     load_le::<136>();
 }
 
+// @harness props=C10 tier=thorough panic=forbid timeout=1800
+// @encodes as c10_load_le64
+// @bound 4096-byte object, declared length symbolic in 0..=4096
+#[cfg_attr(kani, kani::proof)]
+pub fn c10_load_le4096() {
+    load_le::<4096>();
+}
+
 fn load_le<const N: usize>() {
     let b = Aligned::<N>::any();
     let magic = le32(&b.0, 0);
